@@ -174,6 +174,8 @@ class Solver:
         self.secs = 0.0
         self.worst = 0.0
         self.smt2_samples = []
+        self.cross = []            # (smt2 text, verdict) for the cross-solver comparison
+        self.cross_max = 3
 
     def check(self, formulas, want_model=False, logic=None, keep_sample=False):
         s = z3.Solver() if logic is None else z3.SolverFor(logic)
@@ -196,6 +198,8 @@ class Solver:
         if keep_sample and len(self.smt2_samples) < 2:
             txt = s.to_smt2()
             self.smt2_samples.append(txt if len(txt) < 6000 else txt[:6000] + "\n; ... truncated")
+        if keep_sample and len(self.cross) < self.cross_max and r != z3.unknown:
+            self.cross.append((s.to_smt2(), "sat" if r == z3.sat else "unsat"))
         if r == z3.sat:
             return "sat", (s.model() if want_model else None)
         if r == z3.unsat:
